@@ -135,6 +135,7 @@ type refNode struct {
 	resetQueued bool
 	proposedAt  uint32 // highest height at which this identity broadcast a PrepareRequest
 	decidedView map[uint32]byte
+	early       map[refHash]bool // commits stored while the header could not be built (D1 bookkeeping)
 	slow        bool
 }
 
@@ -165,6 +166,7 @@ type refCluster struct {
 	th       uint64
 	log      *zap.Logger
 	cur      *refNode
+	d1       bool // some acceptance in this run had the signature of known finding D1
 }
 
 type refCore struct{ c *refCluster }
@@ -235,6 +237,7 @@ func (n *refNode) tip() refBlk { return n.chain[len(n.chain)-1] }
 func (n *refNode) boot() {
 	c := n.c
 	n.tm = &rcTimer{n: n}
+	n.early = map[refHash]bool{}
 	n.inc++
 	n.resetQueued = false
 	log := c.log
@@ -272,7 +275,15 @@ func (n *refNode) boot() {
 		func() uint32 { return n.tip().idx },
 		func() refHash { return n.tip().hash },
 		func(...dbft.Transaction[refHash]) []dbft.PublicKey { return c.vals },
-		func(dbft.ConsensusPayload[refHash]) error { return nil },
+		func(p dbft.ConsensusPayload[refHash]) error {
+			// (the library asks for the header right after this callback; asking here only
+			// computes it one line earlier) - a commit taken in while the header cannot be built
+			// is never re-validated at a node that RECEIVES the proposal: known finding D1
+			if p.Type() == dbft.CommitType && n.d != nil && n.d.MakeHeader() == nil {
+				n.early[p.Hash()] = true
+			}
+			return nil
+		},
 	)
 	if err != nil {
 		c.violate("harness_error", n.id, "dbft.New: "+err.Error())
@@ -371,27 +382,43 @@ func (n *refNode) processBlock(b dbft.Block[refHash]) error {
 	h := b.Hash()
 	c.fold(2, uint64(n.id), uint64(b.Index()), rh64(h))
 	c.tracef("n%d ProcessBlock index=%d hash=%x view=%d txs=%d", n.id, b.Index(), h[:4], n.d.ViewNumber, len(b.Transactions()))
-	if prev, ok := c.accepted[b.Index()]; ok && prev != h {
-		c.violate("fork", n.id, fmt.Sprintf("height %d: node %d accepted block %x, another node accepted %x", b.Index(), n.id, h[:6], prev[:6]))
-	} else {
-		c.accepted[b.Index()] = h
-	}
 	// decision certificate under real cryptography: M current-view commits whose P-256
 	// signatures verify against exactly this block (all participants of this family run honest
 	// code and no primary proposes twice, so known finding D1 is out of reach here)
-	valid := 0
+	valid, invalidEarly, invalidLate := 0, 0, 0
 	for i, cp := range n.d.CommitPayloads {
 		if cp == nil || cp.ViewNumber() != n.d.ViewNumber || i >= len(c.vals) {
 			continue
 		}
 		if cm := cp.GetCommit(); cm != nil && b.Verify(c.vals[i], cm.Signature()) == nil {
 			valid++
+		} else if n.early[cp.Hash()] {
+			invalidEarly++
+		} else {
+			invalidLate++
 		}
 	}
 	if m := c.nVal - (c.nVal-1)/3; valid < m {
-		c.violate("accepted_block_without_M_valid_commits", n.id, fmt.Sprintf("node %d accepted block %d in view %d holding %d current-view commits that verify against it (M=%d)", n.id, b.Index(), n.d.ViewNumber, valid, m))
+		if invalidLate == 0 && valid+invalidEarly >= m {
+			// known finding D1 (C02), reachable here because the reference GetCommits relabels
+			// the commits inside a recovery message with the view of the message: a commit of
+			// an older view can arrive as a current-view one before the proposal is known
+			c.st.ExNote["ref_known_D1_certificate_counts_unverified_early_commit"]++
+			c.d1 = true
+		} else {
+			c.violate("accepted_block_without_M_valid_commits", n.id, fmt.Sprintf("node %d accepted block %d in view %d holding %d current-view commits that verify against it (M=%d), %d invalid taken in before the header was known, %d invalid taken in later", n.id, b.Index(), n.d.ViewNumber, valid, m, invalidEarly, invalidLate))
+		}
 	}
 	c.st.ExNote["ref_certificate_verified_with_real_signatures"]++
+	if prev, ok := c.accepted[b.Index()]; ok && prev != h {
+		class := "fork"
+		if c.d1 {
+			class = "fork_via_unverified_early_commit" // consequence of known finding D1
+		}
+		c.violate(class, n.id, fmt.Sprintf("height %d: node %d accepted block %x, another node accepted %x", b.Index(), n.id, h[:6], prev[:6]))
+	} else {
+		c.accepted[b.Index()] = h
+	}
 	c.st.Decided++
 	if b.Index() > c.st.MaxHeight {
 		c.st.MaxHeight = b.Index()
@@ -766,6 +793,12 @@ func (c *refCluster) finish() {
 				continue
 			}
 			if n.tip().idx < c.heights {
+				if c.maxLiveView() >= 4 {
+					// the change-view timers of views >= 4 (T << 6 and more) outlive the horizon:
+					// not judged
+					c.st.Truncated = "ref_view_ladder_beyond_horizon"
+					return
+				}
 				if c.commitLockDeadlock() {
 					// the protocol-level commit lock of dBFT 2.0 (known finding L2): validators that
 					// have sent their Commit never leave their view, the others have moved on, and
@@ -838,4 +871,14 @@ func (c *refCluster) lockState() string {
 		txt += fmt.Sprintf(" v%d:h=%d,view=%d,commit=%v", n.vidx, n.d.BlockIndex, n.d.ViewNumber, n.d.CommitSent())
 	}
 	return "state at the end:" + txt
+}
+
+func (c *refCluster) maxLiveView() int {
+	v := 0
+	for _, n := range c.nodes {
+		if n.vidx >= 0 && !n.never && n.up && n.d != nil && int(n.d.ViewNumber) > v {
+			v = int(n.d.ViewNumber)
+		}
+	}
+	return v
 }
